@@ -778,3 +778,77 @@ pub fn text_grid_case(r: &mut Rng, idx: u64) -> Vec<u8> {
     body.extend_from_slice(&raw_record(attr, false, 0, &payload, true));
     control_around(&body, 1, 2, 3, 4)
 }
+
+/// Dictionary grid (G-dict): as `vendor_grid`, but the enterprise numbers, attribute types and
+/// payload lengths are extended by the integer literals found in the source under test (and their
+/// neighbours), so that a table keyed on (vendor, attribute, length) is met whatever constants it
+/// uses. Empty when no dictionary was supplied.
+pub struct DictGrid {
+    pub vendors: Vec<u16>,
+    pub attrs: Vec<u16>,
+    pub lens: Vec<usize>,
+}
+
+pub const DICT_GRID_CAP: u64 = 4_000_000;
+
+pub fn dict_grid() -> &'static DictGrid {
+    static G: std::sync::OnceLock<DictGrid> = std::sync::OnceLock::new();
+    G.get_or_init(|| {
+        let lits = super::dict::ints_upto(0xffff);
+        let mut vendors: Vec<u16> = VENDOR_DICT.to_vec();
+        vendors.extend(0..=15u16);
+        vendors.extend(lits.iter().map(|x| *x as u16));
+        vendors.sort_unstable();
+        vendors.dedup();
+        let mut attrs: Vec<u16> = (0..=255u16).collect();
+        attrs.extend(lits.iter().map(|x| *x as u16));
+        attrs.sort_unstable();
+        attrs.dedup();
+        let mut lens: Vec<usize> = (0..=41usize).collect();
+        lens.extend(super::dict::ints_upto(1017).iter().map(|x| *x as usize));
+        lens.sort_unstable();
+        lens.dedup();
+        DictGrid { vendors, attrs, lens }
+    })
+}
+
+fn dict_grid_space() -> u64 {
+    if super::dict::get().ints.is_empty() {
+        return 0;
+    }
+    let g = dict_grid();
+    (g.vendors.len() as u64).saturating_mul(g.attrs.len() as u64).saturating_mul(g.lens.len() as u64).saturating_mul(4)
+}
+
+/// Number of cases: the whole grid when it has at most `DICT_GRID_CAP` points, else that many
+/// random points of it.
+pub fn dict_grid_count() -> u64 {
+    dict_grid_space().min(DICT_GRID_CAP)
+}
+
+/// The stream enumerates the whole grid (native tiers, grid within the cap).
+pub fn dict_grid_exhaustive(native: bool) -> bool {
+    native && dict_grid_space() > 0 && dict_grid_space() <= DICT_GRID_CAP
+}
+
+pub fn dict_grid_case(r: &mut Rng, idx: u64) -> Vec<u8> {
+    let g = dict_grid();
+    let space = dict_grid_space().max(1);
+    let mut x = if space > DICT_GRID_CAP { r.below(space) } else { idx % space };
+    let vendor = g.vendors[(x % g.vendors.len() as u64) as usize];
+    x /= g.vendors.len() as u64;
+    let attr = g.attrs[(x % g.attrs.len() as u64) as usize];
+    x /= g.attrs.len() as u64;
+    let plen = g.lens[(x % g.lens.len() as u64) as usize];
+    x /= g.lens.len() as u64;
+    let mandatory = x % 2 == 1;
+    let hidden = (x / 2) % 2 == 1;
+    let mut body = message_type_record(MESSAGE_TYPES[(idx % 14) as usize].0);
+    // a well-formed payload of the attribute's own kind when there is one (vendor 0), else octets
+    let payload = if vendor == 0 && !hidden && format_of(attr).is_some() { valid_payload(r, attr, plen) } else { r.bytes(plen) };
+    body.extend_from_slice(&raw_record(attr, hidden, vendor, &payload, mandatory));
+    if idx % 3 == 0 {
+        body.extend_from_slice(&raw_record(9, false, 0, &[0x12, 0x34], true));
+    }
+    control_around(&body, 1, 2, 3, 4)
+}
